@@ -301,6 +301,42 @@ theorem nodeLoss_is_true_loss (padding : ℝ) (r : List (Elem ℝ)) (u : String)
   rw [hl']
   simp only [Elem.dsl, hd]
 
+/-! ### the recorded reference input powers are what the designed line delivers -/
+
+/-- every amplifier of the line closes the budget for the power that reaches it: `p − in_voa + gain = p_ref + _delta_p`
+(this is `gain_closes_budget` with `node_loss` = the loss walked since the previous amplifier, cf.
+`ref_power_invariant`, `nodeLoss_is_true_loss`) -/
+def BudgetOK (pref : ℝ) : ℝ → List (Elem ℝ) → List (AmpOut ℝ) → Prop
+  | _, [], _ => True
+  | p, .edfa _ _ :: rest, o :: outs =>
+    p - o.inVoa + o.gain = pref + o.dpInt ∧ BudgetOK pref (pref + o.dpInt - o.outVoa) rest outs
+  | _, .edfa _ _ :: _, [] => True
+  | p, .fiber _ q :: rest, outs => BudgetOK pref (p - q.loss) rest outs
+  | p, .fused _ l :: rest, outs => BudgetOK pref (p - l) rest outs
+
+/-- **`ref_pch_in_dbm` of fibres and ROADMs** (`set_fiber_input_power`, `set_roadm_input_powers`: amplifier target minus
+the losses walked) is the power the reference channel really has there when it is sent through the designed line
+without noise — along any line, for any mix of elements. -/
+theorem ref_pch_in_consistent (pref : ℝ) :
+    ∀ (line : List (Elem ℝ)) (p : ℝ) (outs : List (AmpOut ℝ)), BudgetOK pref p line outs →
+      refIns pref p line outs = propIns p line outs := by
+  intro line
+  induction line with
+  | nil => intro p outs _; simp [refIns, propIns]
+  | cons e rest ih =>
+    intro p outs h
+    cases e with
+    | fiber u q => simp only [refIns, propIns, BudgetOK] at h ⊢; rw [ih _ _ h]
+    | fused u l => simp only [refIns, propIns, BudgetOK] at h ⊢; rw [ih _ _ h]
+    | edfa u a =>
+      cases outs with
+      | nil => simp [refIns, propIns]
+      | cons o os =>
+        simp only [refIns, propIns, BudgetOK] at h ⊢
+        rw [ih _ _ h.2]
+        have : p - o.inVoa + o.gain - o.outVoa = pref + o.dpInt - o.outVoa := by rw [h.1]
+        rw [this]
+
 /-! ### non-vacuity -/
 
 /-- `ref_power_invariant` applied to a two-amplifier OMS with mixed settings (auto booster, user in-line amplifier
@@ -325,5 +361,19 @@ example : (-2:ℝ) ≤ 3 ∧ (1:ℝ) / 100 ≤ round1 (1 / 2) := by
   · have : realRint ((1:ℝ) / 2 * 10) = 5 := by
       have := realRint_int_cast 5; norm_num at this ⊢; exact this
     simp only [round1, rint_real, Nat.cast_ofNat, this]; norm_num
+
+
+/-- `BudgetOK` (hypothesis of `ref_pch_in_consistent`) on booster – 80 km – preamp -/
+example : BudgetOK 0 (-20)
+    [.edfa "b" newEdfa,
+     .fiber "f" { length := 80000, lossCoef := 0.0002, conIn := some 0, conOut := some 0, attIn := 0, lumps := [],
+                  raman := false, ramanGain := none, dsl := none },
+     .edfa "p" newEdfa]
+    [{ gain := 19, deltaP := some (-1), dpInt := -1, outVoa := 0, inVoa := 0, targetPch := none, retDp := -1, retVoa := 0,
+       reduction := 0, dp0 := -1, gain0 := 19, powerTarget := 18 },
+     { gain := 17, deltaP := some 0, dpInt := 0, outVoa := 0, inVoa := 0, targetPch := none, retDp := 0, retVoa := 0,
+       reduction := 0, dp0 := 0, gain0 := 17, powerTarget := 19 }] := by
+  simp only [BudgetOK, FiberP.loss, FiberP.lumped, sumLeft_eq_sum]
+  norm_num
 
 end Gnpy.Chain
